@@ -435,6 +435,57 @@ func generate(emit func(caseIn)) {
 		}
 	}
 
+	// 6f. BODIES THAT NEVER END (the bytes, then a reader that blocks / trickles blanks for ever),
+	//     scripted where the code has no reason to read past the bytes: a 2xx answer to a method
+	//     that does not look at the body; a complete multi-status (207) or DAV:error document
+	//     (XML error) — the XML decoder stops at the end of the first element; an error body of a
+	//     type that is not looked at; a text error body longer than the 1 KiB that are kept, or
+	//     trickling (the limit is reached).  Not scripted: incomplete XML, short text followed by a
+	//     blocking reader, iCalendar/vCard bodies — there reading on is what the code must do.
+	//     The call has to return within the watchdog's patience; (hang) is a failing input.
+	longText := strings.Repeat("the server is unhappy. ", 100)
+	for _, m := range methods {
+		mi := minfo[m]
+		for _, d := range []int{delivThenBlocks, delivThenTrickles} {
+			var cs []caseIn
+			switch {
+			case mi.ms:
+				cs = append(cs, okCase(m))
+			case m == "GetCalendarObject" || m == "GetAddressObject":
+			default:
+				for _, st := range []int{200, 201, 204} {
+					c := okCase(m)
+					c.r.status = st
+					c.r.body = "left over"
+					cs = append(cs, c)
+				}
+			}
+			for _, st := range []int{301, 403, 404, 500, 507} {
+				c := base(m, st)
+				c.r.ct, c.r.body = sp("application/json"), `{"error":"x"}`
+				cs = append(cs, c)
+				c = base(m, st)
+				c.r.ct, c.r.body = sp("application/xml"), errXML
+				cs = append(cs, c)
+				c = base(m, st)
+				c.r.ct, c.r.body = sp("text/plain"), longText
+				cs = append(cs, c)
+				if d == delivThenTrickles {
+					c = base(m, st)
+					c.r.ct, c.r.body = sp("text/html"), "short"
+					cs = append(cs, c)
+					c = base(m, st)
+					c.r.body = ""
+					cs = append(cs, c)
+				}
+			}
+			for _, c := range cs {
+				c.r.deliv = d
+				emit(c)
+			}
+		}
+	}
+
 	// 7. seeded random cases
 	rng := hx.NewRand(hx.Seed())
 
